@@ -17,6 +17,8 @@ assertions of ScopeHandle / TemporaryRegister), hand-assembled Option<Node> valu
 """
 import os
 import re
+import rules
+from mir import op_local, op_const
 
 import gram
 import gramflow
@@ -80,6 +82,7 @@ def run(ctx, rep):
     single_visit(F, rep)
     borrow_discipline(F, rep)
     fallible_contract(F, rep)
+    index_sites(F, rep)
     rep.extra["analysis_rounds"] = fl.rounds
     rep.extra["hand_assembled_option_unwraps_counted_not_judged"] = getattr(fl, "uncounted", 0)
     # K4 panics outside the clause: counted
@@ -342,3 +345,84 @@ def fallible_contract(F, rep):
                "violated" if hits else "ok", "; ".join("%s!() at %s" % h for h in hits[:3]), f.span, fn=f.path,
                key="C16.fallible-contract|%s" % f.path)
     rep.floor("C16.fallible-contract functions fallible by name or trait", n, 10)
+
+
+def index_sites(F, rep):
+    """Indexing in the compiler does not panic on program text.  Every `x[i]` / `x[a..]` on a Vec, slice or String in crate compiler is
+    discharged by (a) a dominating range comparison of the index, (b) a dominating `i == x.len()` test whose equal edge leaves (break / return)
+    for an index counted up by enumerate(), (c) `len - 1` under a dominating `len == 0` exit, or (d) a constant prefix cut of a token's text that
+    is no longer than the literal the token's grammar rule starts with; anything else is a violation."""
+    from props import _panics
+    import gram
+    n = 0
+    G = F.grammar()
+    grules = {r["name"]: r for r in (G["rules"] if isinstance(G, dict) and "rules" in G else G)}
+
+    def first_literal(rule):
+        e = grules.get(rule, {}).get("expr")
+        while isinstance(e, dict) and e.get("k") == "seq":
+            e = e["a"]
+        return e.get("v") if isinstance(e, dict) and e.get("k") == "str" else None
+    prefix_lens = {len(first_literal(r)) for r in ("bigint", "hex_int", "byte") if first_literal(r)}
+    for s in _panics.sites(F, crate="compiler"):
+        if s["kind"] != "K2" or not s["what"].startswith("Index on"):
+            continue
+        f, bb, idx = s["fn"], s["bb"], s.get("idx")
+        n += 1
+        why = None
+        if _panics.len_guarded(f, bb, idx):
+            why = "a range comparison of the index dominates the access"
+        if why is None and idx is not None:
+            chain = set(rules.chain_locals(f, idx)) | {idx}
+            doms = f.dominators()
+            for bi, si, d, rv, st in f.assigns():
+                if "bin" in rv and rv["bin"] == "Eq" and bi in doms.get(bb, ()) and bi != bb:
+                    sides = [op_local(rv["l"]), op_local(rv["r"])]
+                    lens = [x for x in sides if x is not None and any(c.callee().endswith("::len") for c in rules.origin_calls(f, x))]
+                    zero = (op_const(rv["l"]) or op_const(rv["r"]) or {}).get("int") == "0"
+                    t = f.term(bi)
+                    if t["k"] != "switch" or op_local(t["discr"]) != d["l"]:
+                        continue
+                    eq_t = t["otherwise"]
+                    ne_t = next((tg for v, tg in t["targets"] if v == "0"), None)
+                    leaves = bb not in f.reachable(eq_t)
+                    if not leaves:
+                        continue
+                    # (b) i == x.len() with i from the access's index chain
+                    if lens and any((set(rules.chain_locals(f, x)) | {x}) & chain for x in sides if x is not None and x not in lens):
+                        why = "`index == len` leaves the loop before the access (the index counts up from 0)"
+                    # (c) len == 0 exit and index = len - 1
+                    if zero and lens:
+                        for b2, s2, d2, rv2, st2 in f.assigns():
+                            if d2.get("l") in chain and "bin" in rv2 and rv2["bin"] in ("Sub", "SubWithOverflow") and op_local(rv2["l"]) is not None and (
+                                    set(rules.chain_locals(f, op_local(rv2["l"]))) | {op_local(rv2["l"])}) & (set(lens) | set(x for l in lens for x in rules.chain_locals(f, l))):
+                                why = "`len == 0` returns before `len - 1` is used as the index"
+        if why is None:
+            # closures: the index may be a captured `len - 1`; look in the parent for the len == 0 exit
+            parent = F.fn(re.sub(r"::\{closure#\d+\}$", "", f.path)) if "{closure#" in f.path else None
+            if parent is not None and f.path != parent.path:
+                for bi, si, d, rv, st in parent.assigns():
+                    if "bin" in rv and rv["bin"] == "Eq" and (op_const(rv["l"]) or op_const(rv["r"]) or {}).get("int") == "0":
+                        t = parent.term(bi)
+                        if t["k"] == "switch":
+                            eq_t = t["otherwise"]
+                            uses = [c.bb for c in parent.calls() if rules.closure_def_of_arg(parent, c.args[1] if len(c.args) > 1 else c.args[0] if c.args else None) == f.path] if False else []
+                            cl_blocks = [b2 for b2, s2, d2, rv2, st2 in parent.assigns() if "agg" in rv2 and rv2["agg"].get("k") == "closure" and rv2["agg"].get("def") == f.path]
+                            if cl_blocks and all(b2 not in parent.reachable(eq_t) for b2 in cl_blocks):
+                                why = "the closure is built only after `len == 0` returned (index = len - 1)"
+        if why is None and "String" in s["what"] and idx is not None:
+            ty = f.locals[idx]
+            if "RangeFrom" in ty:
+                starts = set()
+                for bi, si, d, rv, st in f.assigns():
+                    if d.get("l") == idx and "agg" in rv:
+                        for o in rv["ops"]:
+                            k = op_const(o)
+                            if k and "int" in k:
+                                starts.add(int(k["int"]))
+                if starts and starts <= prefix_lens:
+                    why = "cuts off %s byte(s) of a token whose grammar rule starts with a literal of that length" % sorted(starts)
+        rep.ob("C16.index", "%s: %s cannot be out of range" % (mir.short(f.path), s["what"]), "ok" if why else "violated",
+               why or "no range test of the index dominates the access: an unexpected length makes the compiler panic instead of reporting an error", s["span"], fn=f.path,
+               key="C16.index|%s|%s" % (mir.short(f.path), s["what"][:40]))
+    rep.floor("C16.index sites in crate compiler", n, 4)
